@@ -140,7 +140,24 @@ class FuncAlias(Structured):
         if place.startswith('self.') and place.count('.') == 1:
             a = place.split('.', 1)[1]
             kind = self.scope.param_kinds.get(a) or {'potentials': 'cv', 'marginals': 'cv', 'domain': 'domain', 'cliques': 'list'}.get(a)
+            if kind is None and self.fi.cls is not None:
+                kind = self.attr_kind(a)
             return Val({'S:' + a}, {'S:' + a}, kind)
+        return None
+
+    def attr_kind(self, a):
+        """'list' when every binding of self.<a> in the class is a list construction (list(..), sorted(..), a display, a comprehension)"""
+        vals = []
+        for q, f in self.fi.module.funcs.items():
+            if f.cls is not None and f.cls.name == self.fi.cls.name:
+                for n in ast.walk(f.node):
+                    if isinstance(n, ast.Assign):
+                        for t in n.targets:
+                            if isinstance(t, ast.Attribute) and isinstance(t.value, ast.Name) and t.value.id == 'self' and t.attr == a:
+                                vals.append(n.value)
+        if vals and all(isinstance(v, (ast.List, ast.ListComp)) or (isinstance(v, ast.Call) and isinstance(v.func, ast.Name) and v.func.id in ('list', 'sorted'))
+                        for v in vals):
+            return 'list'
         return None
 
     def initial(self):
@@ -205,6 +222,8 @@ class FuncAlias(Structured):
             self.val(e.slice, st)
             if base.kind == 'ndarray':
                 return Val(base.own, base.own, 'ndarray')      # basic slicing is a view
+            if isinstance(e.slice, ast.Slice) and base.kind in ('list', 'tuple'):
+                return Val(FRESH, base.elem, base.kind, base.ekind)      # slicing a list / tuple builds a new one holding the same elements
             ek = 'factor' if base.kind == 'cv' else base.ekind
             return Val(base.elem, base.elem, ek)
         if isinstance(e, ast.Starred):
